@@ -231,8 +231,8 @@ def run_format(args):
             return out, exhausted
         check("iterload", {"chunk": c, "stride": s, "skip": k, "atom_indices": ai}, it,
               lambda c=c, s=s, k=k, ai=ai: {"chunk": c, "traj": _slice(full, k, s, ai)},
-              _flags(chunk0=c == 0, **{"chunk%stride!=0": c > 0 and c % s != 0, "stride>1": s > 1, "skip>0": k > 0,
-                                       "ai": ai is not None}))
+              _flags(chunk0=c == 0, **{"chunk%stride!=0": c > 0 and c % s != 0, "stride>1": s > 1, "skip>0": 0 < k < N,
+                                       "skip=N": k == N, "ai": ai is not None}))
 
     # ---- lists of files
     judge = judge_traj
